@@ -680,7 +680,9 @@ func (s *Stage) cleanStrays(minAge time.Duration) {
 			var comp *sts.Partial
 			if compExists {
 				if comp, err = readLocalCompanion(compPath, relPath); err != nil {
+					// Nothing can be decided without the record of what is held
 					s.logError(err.Error())
+					return nil
 				}
 			}
 			s.logDebug("Checking for stray partial:", relPath, compExists, comp != nil)
@@ -689,7 +691,7 @@ func (s *Stage) cleanStrays(minAge time.Duration) {
 			filePath := strings.TrimSuffix(path, partExt)
 			fileState := s.getFileState(filePath)
 			fileHash := s.getFileHash(filePath)
-			if fileState > stateReceived {
+			if fileState > stateReceived && fileState != stateFailed {
 				delete = comp == nil || comp.Hash == fileHash
 				// The companion goes only together with its partial: a companion of
 				// another hash is the record of a newer version still being received
